@@ -50,7 +50,7 @@ if [ -n "$demo" ]; then
   if rundemo with; then echo "demo with patch: PASS (not a demonstration)"; else echo "demo with patch: FAIL (as required)"; fi
 fi
 for id in "$@"; do
-  ( cd /verif && VERIF_REPO="$W" VERIF_OUT_DIR="$dir/eval/out" timeout 1800 ./check "$id" quick ) > "$dir/eval/check_$id.log" 2>&1
+  ( cd /verif && VERIF_REPO="$W" VERIF_OUT_DIR="$dir/eval/out" timeout 5400 ./check "$id" quick ) > "$dir/eval/check_$id.log" 2>&1
   rc=$?
   n=$(grep -c '^VIOLATION' "$dir/eval/check_$id.log")
   echo "check $id: exit=$rc violations=$n $(grep -m1 'what:' "$dir/eval/check_$id.log" | cut -c1-160)"
